@@ -32,6 +32,8 @@ func propC04(w *World, r *Report) {
 	checkWidthPrefix(w, r)
 	checkMoveToForms(w, r)
 	checkOperandSelection(w, r)
+	checkRoundingBase(w, r)
+	checkWidthDict(w, r)
 }
 
 // ---- endchar
@@ -1730,4 +1732,136 @@ func operandSpec(e osEdge) string {
 		}
 	}
 	return ""
+}
+
+// checkRoundingBase: "one rounding per coordinate that does not accumulate".
+// encodeArgs keeps the current point as the interpreter will see it and
+// computes every delta relative to it; that only works if the current point
+// is advanced by the values actually encoded (the .Val of encodeNumber's
+// results), not by the coordinates that were asked for.
+func checkRoundingBase(w *World, r *Report) {
+	r.Rule("roundingbase: in cff.encodeArgs the loop-carried current point (posX, posY) is advanced only by values that come out of encodeNumber (the rounded deltas), never by the requested coordinates cmd.Args[...] directly: otherwise the rounding error of each segment is not compensated by the next delta and accumulates along the path")
+	fn := w.Func("cff.encodeArgs")
+	if fn == nil {
+		r.Fatal("cff.encodeArgs does not resolve")
+		return
+	}
+	n := 0
+	for _, b := range fn.Blocks {
+		for _, in := range b.Instrs {
+			ph, ok := in.(*ssa.Phi)
+			if !ok {
+				break
+			}
+			bt, ok := ph.Type().Underlying().(*types.Basic)
+			if !ok || bt.Kind() != types.Float64 || !isLoopPhi(ph) {
+				continue
+			}
+			n++
+			key := r.MkKey("roundingbase", "cff.encodeArgs", "current point "+ph.Comment)
+			bad := ""
+			seen := map[ssa.Value]bool{}
+			var visit func(v ssa.Value, depth int)
+			visit = func(v ssa.Value, depth int) {
+				if v == nil || seen[v] || depth > 40 || bad != "" {
+					return
+				}
+				seen[v] = true
+				switch x := v.(type) {
+				case *ssa.Call:
+					if c := x.Call.StaticCallee(); c != nil && c.Name() == "encodeNumber" {
+						return // the encoded value: fine, do not look at what was asked for
+					}
+				case *ssa.UnOp:
+					if x.Op == token.MUL {
+						if ia, ok := x.X.(*ssa.IndexAddr); ok {
+							if ld, ok := ia.X.(*ssa.UnOp); ok {
+								if fa, ok := ld.X.(*ssa.FieldAddr); ok && fieldName(fa) == "Args" {
+									bad = "it depends on the requested coordinate read at " + w.Pos(x.Pos())
+									return
+								}
+							}
+							if f, ok := ia.X.(*ssa.Field); ok && f.X.Type().String() != "" {
+								st, ok2 := f.X.Type().Underlying().(*types.Struct)
+								if ok2 && st.Field(f.Field).Name() == "Args" {
+									bad = "it depends on the requested coordinate read at " + w.Pos(x.Pos())
+									return
+								}
+							}
+						}
+					}
+				}
+				if ins, ok := v.(ssa.Instruction); ok {
+					for _, op := range ins.Operands(nil) {
+						if *op != nil {
+							visit(*op, depth+1)
+						}
+					}
+				}
+			}
+			for i, e := range ph.Edges {
+				if ph.Block().Dominates(ph.Block().Preds[i]) && e != ssa.Value(ph) {
+					visit(e, 0)
+				}
+			}
+			if bad == "" {
+				r.OK("roundingbase", key, w.Pos(ph.Pos()), "advanced by encoded values only")
+			} else {
+				r.Fail("roundingbase", key, w.Pos(ph.Pos()), "the current point "+ph.Comment+" is not advanced by the encoded deltas alone: "+bad+"; the interpreter adds the rounded deltas, so the two drift apart by one rounding error per segment", nil)
+			}
+		}
+	}
+	if n < 2 {
+		r.Fail("roundingbase", r.MkKey("roundingbase", "cff.encodeArgs", "current point"), w.Pos(fn.Pos()), "the loop-carried current point was not found", nil)
+	}
+	r.Floor("roundingbase", 2)
+}
+
+// checkWidthDict: the charstrings are encoded relative to the exact
+// defaultWidthX / nominalWidthX that selectWidths returned; the Private DICT
+// must store those same numbers (as reals where they are fractional).
+func checkWidthDict(w *World, r *Report) {
+	r.Rule("widthdict: defaultWidthX and nominalWidthX are written to the Private DICT with a type that can carry a fractional value (not int32 cut from a float64): the interpreter adds nominalWidthX to the width operand, so a truncated DICT entry shifts every non-default width")
+	sp := w.SSAPkg[modPath+"/cff"]
+	if sp == nil {
+		r.Fatal("package cff not loaded")
+		return
+	}
+	opName := map[string]string{}
+	for name, m := range sp.Members {
+		if c, ok := m.(*ssa.NamedConst); ok && strings.HasPrefix(name, "op") && c.Type().String() == modPath+"/cff.dictOp" {
+			opName[c.Value.Value.ExactString()] = name
+		}
+	}
+	n := 0
+	for _, fn := range w.LibFuncs() {
+		if fnPkgPath(fn) != sp.Pkg.Path() {
+			continue
+		}
+		for _, b := range fn.Blocks {
+			for _, in := range b.Instrs {
+				mu, ok := in.(*ssa.MapUpdate)
+				if !ok || !strings.HasSuffix(mu.Map.Type().String(), "cff.cffDict") {
+					continue
+				}
+				op := opName[constName(mu.Key)]
+				if op != "opDefaultWidthX" && op != "opNominalWidthX" {
+					continue
+				}
+				for _, k := range sliceElemKinds(mu.Value) {
+					n++
+					key := r.MkKey("widthdict", fnName(fn), op)
+					if k == "int<-float" || k == "int" {
+						r.Fail("widthdict", key, w.Pos(mu.Pos()), op+" is stored as "+k+": a fractional width parameter is cut off in the DICT while the charstrings were encoded against the exact value", nil)
+					} else {
+						r.OK("widthdict", key, w.Pos(mu.Pos()), "stored as "+k)
+					}
+				}
+			}
+		}
+	}
+	if n < 2 {
+		r.Fail("widthdict", r.MkKey("widthdict", "cff", "width operators"), "-", "the writes of defaultWidthX / nominalWidthX were not found", nil)
+	}
+	r.Floor("widthdict", 2)
 }
